@@ -240,44 +240,58 @@ impl Explorer {
             for i in (1..NSLOTS).rev() {
                 order.swap(i, r.below(i + 1));
             }
-            for i in order {
-                pool.slots[i] = None;
-                pool.model[i] = None;
-            }
-            shim::drain_quarantine();
-            for e in shim::take_errors() {
-                found.push(Viol { prop: 3, monitor: "shadow-heap", msg: format!("at final drop: {e}") });
-            }
-            if self.track_heap {
-                let live = shim::live_snapshot();
-                self.cov.mon("leak-at-end", true);
-                if !live.is_empty() {
-                    found.push(Viol {
-                        prop: 3,
-                        monitor: "leak-at-end",
-                        msg: format!(
-                            "{} heap block(s) still allocated after every handle was dropped (sizes {:?})",
-                            live.len(),
-                            live.iter().map(|x| x.1).take(4).collect::<Vec<_>>()
-                        ),
-                    });
-                    shim::forget_live();
-                }
-            }
-            if let Some(i) = statics_damaged() {
-                found.push(Viol { prop: 10, monitor: "static-pristine", msg: format!("static text #{i} modified") });
-            }
+            found.extend(self.end_of_history(&mut pool, &order));
         } else {
-            // leak what is left: state may be inconsistent
-            for i in 0..NSLOTS {
-                if let Some(s) = pool.slots[i].take() {
-                    std::mem::forget(s);
-                }
-            }
-            shim::take_errors();
-            shim::forget_live();
+            Self::abandon(&mut pool);
         }
         (found, ctx, requests_total)
+    }
+
+    /// Drops every handle (in `order`) and checks that nothing is left on the heap.
+    pub fn end_of_history(&mut self, pool: &mut Pool, order: &[usize]) -> Vec<Viol> {
+        let mut found = Vec::new();
+        for &i in order {
+            pool.slots[i] = None;
+            pool.model[i] = None;
+            pool.static_id[i] = None;
+        }
+        shim::drain_quarantine();
+        for e in shim::take_errors() {
+            found.push(Viol { prop: 3, monitor: "shadow-heap", msg: format!("at final drop: {e}") });
+        }
+        if self.track_heap {
+            let live = shim::live_snapshot();
+            self.cov.mon("leak-at-end", true);
+            if !live.is_empty() {
+                found.push(Viol {
+                    prop: 3,
+                    monitor: "leak-at-end",
+                    msg: format!(
+                        "{} heap block(s) still allocated after every handle was dropped (sizes {:?})",
+                        live.len(),
+                        live.iter().map(|x| x.1).take(4).collect::<Vec<_>>()
+                    ),
+                });
+                shim::forget_live();
+            }
+        }
+        if let Some(i) = statics_damaged() {
+            found.push(Viol { prop: 10, monitor: "static-pristine", msg: format!("static text #{i} modified") });
+        }
+        found
+    }
+
+    /// After a violation: leak what is left (state may be inconsistent) and reset the shim tables.
+    pub fn abandon(pool: &mut Pool) {
+        for i in 0..NSLOTS {
+            if let Some(s) = pool.slots[i].take() {
+                std::mem::forget(s);
+            }
+            pool.model[i] = None;
+            pool.static_id[i] = None;
+        }
+        shim::take_errors();
+        shim::forget_live();
     }
 
     fn viol(out: &mut Vec<Viol>, prop: usize, monitor: &'static str, msg: String) {
@@ -346,7 +360,7 @@ impl Explorer {
                 let sig = mix(tag_hash(op.tag()), mix(snaps[t].kind as u64, share as u64));
                 self.cov.hit(18, sig, || format!("{} on {:?}/{:?}", op.show(), snaps[t].kind, share));
             }
-            (Out::Panic(_), real) => {
+            (Out::Panic(_), real) if !is_cb_panic => {
                 // C07: String panicked on the index
                 self.cov.mon("index-panic-parity", true);
                 match real {
@@ -406,7 +420,7 @@ impl Explorer {
                         pool.model[t] = None;
                         pool.static_id[t] = None;
                     }
-                    Op::Extend { kind, items, .. } => {
+                    Op::Extend { kind, items, .. } | Op::ExtendPanic { kind, items, .. } => {
                         let before = model_before.clone().unwrap_or_default();
                         match prefix_state(&before, *kind, items, pool.slots[t].as_ref().map(|s| s.as_bytes())) {
                             Some(s) => pool.model[t] = Some(s),
@@ -770,9 +784,6 @@ impl Explorer {
         let ok = real_out.is_ok();
         let l_before = model_before.as_ref().map(|m| m.len()).unwrap_or(0);
         let m_after_len = pool.model[t].as_ref().map(|m| m.len()).unwrap_or(0);
-        let n_alloc = log.iter().filter(|q| q.kind == ReqKind::Alloc).count();
-        let n_realloc = log.iter().filter(|q| q.kind == ReqKind::Realloc).count();
-        let n_dealloc = log.iter().filter(|q| q.kind == ReqKind::Dealloc).count();
         let counted = self.track_heap;
         let total_req = if counted { log.len() as u64 } else { dc.total() };
 
@@ -891,7 +902,7 @@ impl Explorer {
             }
             if let Op::FromStatic { id, .. } = op {
                 self.cov.mon("static-borrow", true);
-                let txt = statics().texts[*id];
+                let txt = static_text(*id);
                 if c.total() != 0 {
                     Self::viol(out, 10, "static-borrow", format!("from_static_str issued {} allocator requests", c.total()));
                 }
